@@ -126,7 +126,8 @@ CHECKS = {
     "C15": (MC, "For every recorded LDPC session TLC evaluates, on the session's own equations, whether the sum of all "
             "equations isolates the last repair symbol; a claim (OF_CRTL_LDPC_STAIRCASE_IS_LAST_SYMBOL_NULL) must imply "
             "it and must agree between encoder and decoder sessions of equal parameters. The LastNull lemma of the "
-            "RFC construction is model-checked exhaustively on small points.",
+            "RFC construction is model-checked exhaustively on small points. Sessions with n-k up to 48990 (counts of the "
+            "construction at 2^15/2^16) are decided on the observed equations alone (PchkTrace!CheckClaim).",
             "Linearity: a symbol that is the empty GF(2) combination of the sources is zero for every source block.",
             "TLC lemma check (PchkModel) + TLC trace validation (PchkTrace)", "5/C15"),
 }
